@@ -1000,8 +1000,8 @@ class MainProvider(ResolverMixin, BaseProvider):
 
         # Error if original and modified classes do not have the same
         # superclass name or both both not None
-        if (ModifiedClass.superclass is None and orig_class.superclass) \
-                or (ModifiedClass.superclass and orig_class.superclass is None):
+        if (not ModifiedClass.superclass and orig_class.superclass) \
+                or (ModifiedClass.superclass and not orig_class.superclass):
             raise CIMError(
                 CIM_ERR_INVALID_SUPERCLASS,
                 _format("Superclass name in modified class {0!A} "
